@@ -318,21 +318,26 @@ TEMPLATES['EditRules'] = '''import PcfgVerif.Model.Prob
 /-! GENERATED by harness/translate.py from edit_rules.py (`edit_length`) -- do not edit. -/
 namespace Pcfg.Generated.EditRules
 
-/-- length added for a `Y` token -/
-def yearLen : Nat := {I:edit_length:11}
-def totalStart : Nat := {I:edit_length:2}
-def isA (c : Char) : Bool := {C:edit_length:3} c 'A'
-def isD (c : Char) : Bool := {C:edit_length:6} c 'D'
-def isY (c : Char) : Bool := {C:edit_length:9} c 'Y'
-def isO (c : Char) : Bool := {C:edit_length:12} c 'O'
-def isK (c : Char) : Bool := {C:edit_length:15} c 'K'
-def isX (c : Char) : Bool := {C:edit_length:18} c 'X'
+/-- length added to `shortest_length` / `longest_length` for a `Y` token -/
+def yearLenLo : Nat := {I:edit_length:16}
+def yearLenHi : Nat := {I:edit_length:17}
+def startLo : Nat := {I:edit_length:4}
+def startHi : Nat := {I:edit_length:5}
+def isA (c : Char) : Bool := {C:edit_length:6} c 'A'
+def isD (c : Char) : Bool := {C:edit_length:10} c 'D'
+def isY (c : Char) : Bool := {C:edit_length:14} c 'Y'
+def isO (c : Char) : Bool := {C:edit_length:18} c 'O'
+def isK (c : Char) : Bool := {C:edit_length:22} c 'K'
+def isX (c : Char) : Bool := {C:edit_length:26} c 'X'
+/-- which component of `context_lengths` an `X` token adds to the shortest / longest length -/
+def ctxLoIdx : Nat := {I:edit_length:29}
+def ctxHiIdx : Nat := {I:edit_length:31}
 
 /-- the three `if / elif / elif` tests that keep a line -/
-def keepLen (total min_length max_length : Nat) : Bool :=
-  if (total == 0) && ({N:edit_length:21} total max_length) then true
-  else if ({N:edit_length:22} total min_length) && (max_length == 0) then true
-  else if ({N:edit_length:23} total min_length) && ({N:edit_length:24} total max_length) then true
+def keepLen (lo hi min_length max_length : Nat) : Bool :=
+  if (hi == 0) && ({N:edit_length:32} hi max_length) then true
+  else if ({N:edit_length:33} lo min_length) && (max_length == 0) then true
+  else if ({N:edit_length:34} lo min_length) && ({N:edit_length:35} hi max_length) then true
   else false
 
 end Pcfg.Generated.EditRules
@@ -454,9 +459,9 @@ def main():
             report['errors'].append(f"{mod}: {e}")
     if extra_modules is not None:
         try:
-            outputs.update(extra_modules(root, report))
-        except TranslateError as e:
-            report['errors'].append(str(e))
+            outputs.update(extra_modules(root, report, record))
+        except Exception as e:
+            report['errors'].append(f"{type(e).__name__}: {e}")
     # a changed hole that no template reads is behaviour the Lean model does not see
     for ch in report['hole_changes']:
         if ch['hole'] not in used.get(ch['site'], set()):
